@@ -30,14 +30,14 @@ func init() {
 			"Blank: every SetSource/Done sequence up to length 4 over {static inner, watching inner, inner failing at Value, Done} plus seeded longer ones, against a 15-line model (delegate to the latest non-watching inner; refuse to replace a watching one; a failing SetSource keeps the previous inner; Done reaches Dials iff no watching inner is installed - observed through monitor exit; an installed watching inner's later updates are applied for as long as the Config context lives, whatever context SetSource was called with). " +
 			"distinct_nontrivial = distinct (mangler list, inner kind, update pattern) and (Blank sequence) signatures.",
 		Assumptions: []string{"a Blank placed inside a transforming source is not generated (Blank's initial zero value is a pointer, which the transforming source does not accept: outside the statement)"},
-		MinDistinct: map[string]int{"quick": 400, "thorough": 8000},
+		MinDistinct: map[string]int{"quick": 800, "thorough": 40000},
 		MinCounters: map[string]map[string]int64{
 			"quick":    {"twin_views_compared": 3000, "wrapped_updates_applied": 1500, "blank_sequences_run": 340, "inner_errors_propagated": 150, "reverse_failures_returned_to_inner": 60},
-			"thorough": {"twin_views_compared": 100000},
+			"thorough": {"twin_views_compared": 800000},
 		},
 		Plan: func(tier string) fw.Plan {
 			if tier == "thorough" {
-				return fw.Plan{Shards: 16, CasesPerShard: 1800, TimeoutSec: 3000}
+				return fw.Plan{Shards: 16, CasesPerShard: 20000, TimeoutSec: 3000}
 			}
 			return fw.Plan{Shards: 8, CasesPerShard: 500, TimeoutSec: 900}
 		},
